@@ -852,6 +852,13 @@ def run_cli(cx):
     # ---------------- kind F: non-zero generations, several --json-object selections per run
     run_generations(cx, wd, sp)
 
+    # ---------------- kind G: semantically equal JSON texts (member order, white space, number and string spellings) import alike
+    import c14_import
+    vdocs = [dd for dd in docs if dd["kind"] == "generated-stream-layer"][:1 if quick else 3] + \
+            [dd for dd in docs if dd["kind"] == "generated"][:2 if quick else 20] + \
+            [dd for dd in docs if dd["kind"] == "corpus"][:0 if quick else 40]
+    c14_import.run_cli_variants(cx, vdocs, wd)
+
 
 # ------------------------------------------------------------------ objects with non-zero generations, several --json-object per run
 
